@@ -161,6 +161,21 @@ def find_block(src, regex, what):
     return start, ob, cb
 
 
+def find_blocks(src, regex, what):
+    """All blocks whose first line matches regex: [(start_of_line, open_brace, close_brace)]."""
+    res = []
+    for m in re.finditer(r"(?m)^[ \t]*" + regex, src):
+        if not skip_line_is_code(src, m.start()):
+            continue
+        ob = first_brace_at_depth0(src, m.start())
+        if ob < 0:
+            continue
+        res.append((m.start(), ob, match_close(src, ob, "{", "}")))
+    if not res:
+        raise Undecided("lost anchor: %s /%s/ not found" % (what, regex))
+    return res
+
+
 def skip_line_is_code(src, pos):
     ls = src.rfind("\n", 0, pos) + 1
     return not src[ls:pos + 3].lstrip().startswith("//")
@@ -291,9 +306,25 @@ def fix_vis(text):
     return re.sub(r"\bpub\((crate|super|in [^)]*)\)", "pub", text)
 
 
-def apply_auto_rules(body, fnname, strips, std, log):
+def anchor_regex(a):
+    """Exact-text anchor, insensitive to the amount of whitespace (so re-indentation is not a lost anchor)."""
+    parts = [re.escape(t) for t in a.split()]
+    return re.compile(r"\s+".join(parts))
+
+
+def is_insertion(a, b):
+    """b is a with text inserted at one or two places (nothing of a removed)."""
+    na = "".join(a.split())
+    nb = "".join(b.split())
+    # subsequence check on non-whitespace characters
+    it = iter(nb)
+    return all(c in it for c in na)
+
+
+def apply_auto_rules(body, fnname, strips, std, log, panic_args=None):
+    panic_args = panic_args or {}
     body = resolve_cfg(body, std, log)
-    body, n = replace_macro_calls(body, "panic", lambda k: "__panic_%s_%d()" % (fnname, k))
+    body, n = replace_macro_calls(body, "panic", lambda k: "__panic_%s_%d(%s)" % (fnname, k, panic_args.get(k, "")))
     if n:
         log.rule("R1: panic!(..) -> per-site diverging stub __panic_<fn>_<n>() (message text dropped)")
     body, n2 = replace_macro_calls(body, "format", lambda k: "__format()")
@@ -400,6 +431,9 @@ def expand(template_path, std=True):
             annots = []
             closures = []
             invariants = {}
+            panic_args = {}
+            prepends = []
+            appends = []
             i += 1
             while tl[i].strip() != "//@end":
                 t = tl[i].strip()
@@ -407,7 +441,17 @@ def expand(template_path, std=True):
                     mm = re.match(r"//@(rewrite|annot) <<<(.*)>>> => <<<(.*)>>>\s*$", t)
                     if not mm:
                         raise Undecided("bad directive: " + t)
-                    (rewrites if mm.group(1) == "rewrite" else annots).append((mm.group(2), mm.group(3)))
+                    (rewrites if mm.group(1) == "rewrite" else annots).append(
+                        (mm.group(2).replace("\\n", "\n"), mm.group(3).replace("\\n", "\n")))
+                elif t.startswith("//@panic "):
+                    mm = re.match(r"//@panic (\d+) <<<(.*)>>>\s*$", t)
+                    panic_args[int(mm.group(1))] = mm.group(2)
+                elif t.startswith("//@prepend "):
+                    mm = re.match(r"//@prepend <<<(.*)>>>\s*$", t)
+                    prepends.append(mm.group(1))
+                elif t.startswith("//@implicit-drop "):
+                    mm = re.match(r"//@implicit-drop <<<(.*)>>>\s*$", t)
+                    appends.append(mm.group(1))
                 elif t.startswith("//@closure "):
                     mm = re.match(r"//@closure <<<(.*)>>> => <<<(.*)>>>\s*$", t)
                     closures.append((mm.group(1), mm.group(2)))
@@ -427,8 +471,15 @@ def expand(template_path, std=True):
                 st, ob, cb = find_fn(src, 0, len(src), name, 0)
                 where = "top-level"
             else:
-                bst, bob, bcb = find_block(src, kv["impl"], "impl")
-                st, ob, cb = find_fn(src, bob + 1, bcb, name, 0)
+                found = []
+                for (bst, bob, bcb) in find_blocks(src, kv["impl"], "impl"):
+                    try:
+                        found.append(find_fn(src, bob + 1, bcb, name, 0))
+                    except Undecided:
+                        pass
+                if len(found) != 1:
+                    raise Undecided("lost anchor: fn %s found %d times in impl blocks /%s/ of %s" % (name, len(found), kv["impl"], file))
+                st, ob, cb = found[0]
                 where = "impl /%s/" % kv["impl"]
             sig = src[st:ob].strip()
             body = src[ob:cb + 1]
@@ -447,18 +498,35 @@ def expand(template_path, std=True):
             if "addsig" in kv:
                 pass
             body = strip_attrs(body)
-            body = apply_auto_rules(body, emit_name, strips, std, g.log)
+            body = apply_auto_rules(body, emit_name, strips, std, g.log, panic_args)
             for (a, b) in rewrites:
-                if body.count(a) != 1:
-                    raise Undecided("lost anchor: abstraction point <<<%s>>> matched %d times in fn %s" % (a, body.count(a), name))
-                body = body.replace(a, b)
+                hits = list(anchor_regex(a).finditer(body))
+                if len(hits) != 1:
+                    raise Undecided("lost anchor: abstraction point <<<%s>>> matched %d times in fn %s" % (a, len(hits), name))
+                body = body[:hits[0].start()] + b + body[hits[0].end():]
                 g.log.abstractions.append("fn %s: <<<%s>>> -> <<<%s>>> (assumed contract of the stub)" % (name, a, b))
             for (a, b) in annots:
-                if body.count(a) != 1:
-                    raise Undecided("lost anchor: annotation site <<<%s>>> matched %d times in fn %s" % (a, body.count(a), name))
-                if a not in b:
+                hits = list(anchor_regex(a).finditer(body))
+                if len(hits) != 1:
+                    raise Undecided("lost anchor: annotation site <<<%s>>> matched %d times in fn %s" % (a, len(hits), name))
+                if not is_insertion(a, b):
                     raise Undecided("annotation for <<<%s>>> does not preserve the original text" % a)
-                body = body.replace(a, b)
+                body = body[:hits[0].start()] + b + body[hits[0].end():]
+                g.log.rule("Rannot: insert-only annotation (ghost iterator name / ghost statement); code text unchanged")
+            if re.search(r"\(\s*mut self\b", sig):
+                sig = re.sub(r"\(\s*mut self\b", "(self", sig, count=1)
+                body = re.sub(r"(?<![A-Za-z0-9_])self(?![A-Za-z0-9_])", "__self", body)
+                prepends = ["let mut __self = self;"] + prepends
+                appends = [re.sub(r"(?<![A-Za-z0-9_])self(?![A-Za-z0-9_])", "__self", a) for a in appends]
+                g.log.rule("Rmutself: `mut self` parameter -> `self` + `let mut __self = self;`, body refers to __self (Verus has no `mut self`)")
+            if prepends:
+                body = "{\n" + "\n".join(prepends) + "\n" + body[1:]
+                g.log.rule("Rghost: ghost declaration prepended to the body")
+            if appends:
+                e = body.rstrip()
+                assert e.endswith("}")
+                body = e[:-1] + "\n".join(appends) + "\n}"
+                g.log.rule("Rdrop: the implicit drop of a by-value `self: Unimock` at the end of the fn is made explicit")
             for (a, b) in closures:
                 if body.count(a) != 1:
                     raise Undecided("lost anchor: closure <<<%s>>> matched %d times in fn %s" % (a, body.count(a), name))
